@@ -7,6 +7,7 @@ sys.path.insert(0, os.path.dirname(os.path.abspath(__file__)))
 SOURCES = {
     "consts": "# -*- coding: utf-8 -*-\nx = 'str'\ny = u'uni\\xe9 \\u4e2d'\nz = (1, 2.5, 2**70, -2**31, None, 'a', b'b\\xff', 1e300, -0.0, 3j)\nw = 2**31\n",
     "funcs": "def f(a, b=3, *c, **d):\n    '''doc'''\n    q = a\n    def g(y):\n        return q + y + b\n    return [g(i) for i in range(2)]\nclass K(object):\n    v = {1: 2, 'k': (None,)}\n    def m(self):\n        try:\n            return self.v[1]\n        except KeyError:\n            raise\n        finally:\n            pass\n",
+    "posonly": "def q(a, b, /, c, *, d, e=1):\n    return a + b + c + d + e\ndef k(*, x):\n    return x\ndef p(a, /):\n    return lambda z, /, *, w: (a, z, w)\n",
     "big": "t = (" + ", ".join(str(i) for i in range(300)) + ")\ns = 'x' * 3\n" + "\n".join("v%d = %d" % (i, i) for i in range(40)) + "\n",
 }
 CHK = ("import marshal,sys\nV=sys.version_info\n"
